@@ -18,6 +18,7 @@ type specEnv struct {
 	bound   map[string]TV
 	depth   int
 	lookupOld func(name string) (TV, bool) // entry-state values of variables, used inside old(...)
+	iterKey   string                       // heap key of the iterator position of the loop whose invariant is being translated
 }
 
 func (env *specEnv) VC() *VC {
@@ -311,7 +312,9 @@ func (env *specEnv) sel(a TV, name string) (TV, error) {
 			if st.Field(i).Name() == name {
 				k := S.FieldKey(pt.Elem(), i)
 				ft := st.Field(i).Type()
-				return TV{fmt.Sprintf("(select %s %s)", env.h(k), a.T), S.SortOf(ft), ft}, nil
+				t := fmt.Sprintf("(select %s %s)", env.h(k), a.T)
+				env.refAge(t, ft)
+				return TV{t, S.SortOf(ft), ft}, nil
 			}
 		}
 		return TV{}, fmt.Errorf("no field %s in %s", name, pt.Elem())
@@ -674,6 +677,19 @@ func (env *specEnv) call(n *SCall) (TV, error) {
 			return TV{}, err
 		}
 		return TV{fmt.Sprintf("(= (i-tag %s) %d)", a.T, S.Tag(T)), "Bool", nil}, nil
+	case "iterpos":
+		// number of completed steps of the range iteration of the loop this invariant belongs to
+		if env.iterKey == "" {
+			return TV{}, fmt.Errorf("iterpos() is only meaningful in the invariant of a range-over-map/string loop")
+		}
+		return TV{env.h(HeapKey{Name: env.iterKey, Sort: "Int"}), "Int", intT()}, nil
+	case "hits":
+		// hits("callee#k"): how many times that call site has executed so far in this invocation (ghost counter)
+		ts, ok := n.Args[0].(*SStr)
+		if !ok {
+			return TV{}, fmt.Errorf("hits: argument must be a quoted call site \"callee#k\"")
+		}
+		return TV{env.h(hitsKey(ts.V)), "Int", intT()}, nil
 	case "regexp_compiles":
 		a, err := env.Term(n.Args[0])
 		if err != nil {
@@ -879,4 +895,26 @@ func (env *specEnv) inPkg(pkg string) *specEnv {
 	c := *env
 	c.pkg = pkg
 	return &c
+}
+
+func hitsKey(site string) HeapKey {
+	return HeapKey{Name: "HITS!" + mangle(site), Sort: "Int"}
+}
+
+// refAge: a reference read from the heap in a contract was allocated before the state it is read in
+// (the same fact the encoder assumes for every load in the code).
+func (env *specEnv) refAge(t string, T types.Type) {
+	if strings.Contains(t, "q!") || strings.Contains(t, "AXV!") || strings.Contains(t, "lv!") || env.heapAt == nil {
+		return
+	}
+	clock, ok := env.heapAt[clockKey.Name]
+	if !ok {
+		return
+	}
+	switch T.Underlying().(type) {
+	case *types.Pointer, *types.Map, *types.Chan:
+		env.VC().assume(fmt.Sprintf("(<= %s %s)", t, clock))
+	case *types.Slice:
+		env.VC().assume(fmt.Sprintf("(<= (c-ref %s) %s)", t, clock))
+	}
 }
